@@ -39,6 +39,10 @@ fn pipeline_args(p: u8) -> Vec<String> {
         9 => &["--take=2"],
         10 => &["--select=.=v", "--skip=1", "--take=1"],
         11 => &["--sort-by=.", "--take=1"],
+        // every value twice (a stage that sits between the reader and the failing writer)
+        12 => &["--split-by=(push [] . .)"],
+        13 => &["--split-by=(push [] . .)", "--select=.=v", "--take=3"],
+        14 => &["--split-by=(push [] . .)", "--filter=(not (null? .))", "--unique"],
         _ => &[],
     };
     v.iter().map(|s| s.to_string()).collect()
@@ -51,6 +55,7 @@ fn take_limit(p: u8) -> Option<usize> {
     match p {
         9 => Some(2),
         10 => Some(1),
+        13 => Some(3),
         _ => None,
     }
 }
@@ -74,7 +79,7 @@ impl Check for C16Faults {
             4 => Just(Vec::<BytesS>::new()),
             1 => vec(vec(garbage_byte(), 1..3).prop_map(BytesS), 1..3),
         ];
-        (vec(val, 0..7), vec(gap, 8), 0u8..4, 0u8..12, vec(1usize..9, 1..4), prop_oneof![Just(0usize), 2usize..5], 0usize..7)
+        (vec(val, 0..7), vec(gap, 8), 0u8..4, 0u8..15, vec(1usize..9, 1..4), prop_oneof![Just(0usize), 2usize..5], 0usize..7)
             .prop_map(|(values, mut noise, policy, pipeline, chunks, interrupt_every, kind_shift)| {
                 noise.truncate(values.len() + 1);
                 Case16 { values, noise, policy, pipeline, chunks, interrupt_every, kind_shift }
@@ -86,7 +91,7 @@ impl Check for C16Faults {
         if input.len() > 400 {
             return CaseResult::Discard("input longer than 400 bytes".into());
         }
-        if case.pipeline == 3 && !crate::univ::coherent_for_unique(&input) {
+        if (case.pipeline == 3 || case.pipeline == 14) && !crate::univ::coherent_for_unique(&input) {
             return CaseResult::Discard("--unique over values where jawk's = and hash disagree (outside C10's domain; the kept rows depend on the hash seed)".into());
         }
         let mut args = pipeline_args(case.pipeline);
@@ -197,7 +202,7 @@ impl Check for C16Faults {
             Info::new(interior >= 2)
                 .weight(runs.saturating_sub(1))
                 .class(["policy:ignore", "policy:stdout", "policy:stderr", "policy:panic"][case.policy as usize])
-                .class(["pipe:none", "pipe:select", "pipe:filter", "pipe:unique", "pipe:sort", "pipe:group", "pipe:csv", "pipe:text+headers", "pipe:merge", "pipe:take", "pipe:select+skip+take", "pipe:sort+take"][case.pipeline as usize])
+                .class(["pipe:none", "pipe:select", "pipe:filter", "pipe:unique", "pipe:sort", "pipe:group", "pipe:csv", "pipe:text+headers", "pipe:merge", "pipe:take", "pipe:select+skip+take", "pipe:sort+take", "pipe:split", "pipe:split+select+take", "pipe:split+filter+unique"][case.pipeline as usize])
                 .class_if(case.interrupt_every > 0, "with_interrupted")
                 .class_if(!ff_ok, "fault_free_run_fails(panic policy + noise)")
                 .obs(json!({"input_len": input.len(), "stdout_len": ff.stdout.len(), "faulted_runs": runs, "interior_offsets": interior})),
@@ -231,7 +236,7 @@ impl Check for C16BadFile {
     }
     fn strategy(&self, _t: Tier) -> BoxedStrategy<CaseBadFile> {
         let val = prop::sample::select(vec!["1", "true", "null", "\"a\"", "[]", "{}", "-0.5", "[1,2]", "{\"a\":1}", "\"b\"", "2", "[3]"]).prop_map(|s| s.to_string());
-        (vec(vec(val, 0..5), 1..4), any::<u16>(), 0u8..4, 0u8..12)
+        (vec(vec(val, 0..5), 1..4), any::<u16>(), 0u8..4, 0u8..15)
             .prop_map(|(files, at, policy, pipeline)| {
                 let bad_at = pick_idx(at, files.len() + 1);
                 CaseBadFile { files, bad_at, policy, pipeline }
@@ -280,6 +285,8 @@ impl Check for C16BadFile {
             return CaseResult::Fail(format!("panic: {} (args {:?})", o.res.short(), with(&all)));
         }
         let rows_before: usize = c.files[..c.bad_at].iter().map(|f| f.len()).sum();
+        // pipeline 13 splits every value into two rows
+        let rows_before = if c.pipeline == 13 { rows_before * 2 } else { rows_before };
         let stopped_early = take_limit(c.pipeline).map(|t| rows_before >= t + if c.pipeline == 10 { 1 } else { 0 }).unwrap_or(false);
         if stopped_early {
             // --take was satisfied before the unreadable file was reached: it is never opened
@@ -324,7 +331,7 @@ pub fn run_all(ctx: &mut Ctx) {
     ctx.rule = "per generated (input <= 400 bytes incl. noise, policy, pipeline, short-read/short-write schedule with Interrupted results): a read fault at EVERY byte offset 0..=len (7 error kinds rotating over the offsets) and a write fault at EVERY byte offset of the fault-free stdout (and of the fault-free stderr under --on-error=stderr), plus a writer that fails only on flush. Oracle: never a panic; the run returns Err (never Ok); stdout/stderr accepted so far are byte prefixes of the fault-free ones; no more output than the bytes before the fault justify (run on the truncated input); write faults: exactly fault_free[..k] was accepted. evaluations = individual faulted runs; non-trivial case = at least two fault offsets strictly inside the stream (output already produced and more to come); distinct = distinct cases by hash".into();
     ctx.assumptions = vec!["a failing descriptor keeps failing (after 64 failures the reader reports EOF so that an implementation that wrongly retries terminates and is judged by its result)".into()];
     C16Faults.run(ctx);
-    ctx.rule.push_str(". C16.failing_file: 1..3 readable files and one that opens but fails on the first read (/proc/self/mem) at every position among them x 4 policies x 12 pipelines: the run fails, a streaming pipeline has printed exactly the rows of the files in front of it, a buffering one nothing");
+    ctx.rule.push_str(". C16.failing_file: 1..3 readable files and one that opens but fails on the first read (/proc/self/mem) at every position among them x 4 policies x 15 pipelines: the run fails, a streaming pipeline has printed exactly the rows of the files in front of it, a buffering one nothing");
     C16BadFile.run(ctx);
 }
 
